@@ -57,10 +57,10 @@ CHECKS = {
     ),
     "C12": dict(
         category="proof",
-        text="Lean 4 theorems (C12.*) by decide over tables regenerated from /repo's AST on every run: no tensor-creation site outside the reviewed baseline allocates in the default dtype or casts a default-dtype temporary; every split forwards dtype/device; plus the arithmetic reasons a float32 constant or a float32-routed decimal ruins float64 accuracy. Tie for accuracy: the float64 correspondences (model at double vs code within ~1e-13). Falsifier: exhaustive dtype audit of constructors/transformations/importers x {f32,f64}, float32-participation tracer, mpmath accuracy checks.",
+        text="Lean 4 theorems (C12.*) by decide over tables regenerated from /repo's AST on every run: no tensor-creation site outside the reviewed baseline allocates in the default dtype or casts a default-dtype temporary; every split forwards dtype/device; plus the arithmetic reasons a float32 constant or a float32-routed decimal ruins float64 accuracy. Tie for accuracy: the float64 correspondences (model at double vs code within ~1e-13). Falsifier: exhaustive dtype audit of constructors/transformations/importers x {f32,f64}, float32-participation tracer, mpmath accuracy checks. Added: model of PyTorch`s type promotion over the operand kinds Cheetah mixes (Promote.lean: dimensioned tensors, zero-dimensional tensors, Python numbers; result_type / combine_categories; kind of a binary operation`s result); theorems f64_in_f64_out and f64_independent_of_default (any arithmetic expression whose tensor leaves are all float64 yields float64 tensors only, whatever the default dtype — induction over expressions), promotion_commutes, promotion_traps (a zero-dimensional float64 setting does not widen float32 particles, a zero-dimensional float32 setting is silently widened, a Python float gives integer tensors the default dtype); tied to torch by correspondence op prom (random expressions under both default dtypes).",
         design="§5 C12",
         note='Trusted: Lean 4.33 kernel, Mathlib; axioms propext/Classical.choice/Quot.sound only (audited each run); instance Scalar ℝ; real-number semantics (round-off outside the theorems, covered by double-vs-double correspondence); harness generators; partial: round-off is not a theorem; the site table is a syntactic abstraction (a leak classified Requested/Inherited is seen only by the falsifier).',
-        technique='Lean 4 decide over translator-regenerated tables + dtype audit / mpmath falsifier',
+        technique='Lean 4 decide over translator-regenerated tables + dtype audit / mpmath falsifier + type-promotion model tied to torch (op prom)',
     ),
     "C13": dict(
         category="proof",
